@@ -77,6 +77,15 @@ def occurs_attrs(mn, mx, explicit=False):
     return s
 
 
+def _member_qname(f, it, ref):
+    """QName of a member's type / ref. A member may bind a prefix of its own on its own start tag (`own_prefix` = (prefix, uri),
+    the way .NET writes schemas: <element name="x" type="q1:T" xmlns:q1="…"/>)."""
+    own = getattr(it, "own_prefix", None)
+    if own is None or ref.builtin:
+        return qname(f, ref), ""
+    return f"{own[0]}:{ref.name}", f" xmlns:{own[0]}={quoteattr(own[1])}"
+
+
 def render_group(f, g, ind):
     x = f.xs_prefix
     out = [f'{ind}<{x}:{g.kind}{occurs_attrs(g.min, g.max, getattr(g, "explicit", False))}>']
@@ -84,10 +93,12 @@ def render_group(f, g, ind):
         if isinstance(it, Group):
             out += render_group(f, it, ind + "  ")
         elif it.kind == "ref":
-            out.append(f'{ind}  <{x}:element ref={quoteattr(qname(f, it.ref))}{occurs_attrs(it.min, it.max, getattr(it, "explicit", False))}/>')
+            qn, decl = _member_qname(f, it, it.ref)
+            out.append(f'{ind}  <{x}:element ref={quoteattr(qn)}{occurs_attrs(it.min, it.max, getattr(it, "explicit", False))}{decl}/>')
         else:
             dflt = f' default={quoteattr(it.default)}' if getattr(it, "default", None) is not None else ""
-            out.append(f'{ind}  <{x}:element name={quoteattr(it.name.xml)} type={quoteattr(qname(f, it.type))}{occurs_attrs(it.min, it.max, getattr(it, "explicit", False))}{dflt}/>')
+            qn, decl = _member_qname(f, it, it.type)
+            out.append(f'{ind}  <{x}:element name={quoteattr(it.name.xml)} type={quoteattr(qn)}{occurs_attrs(it.min, it.max, getattr(it, "explicit", False))}{dflt}{decl}/>')
     out.append(f'{ind}</{x}:{g.kind}>')
     return out
 
@@ -158,8 +169,12 @@ def render_component(f, c, files, ind="  "):
         if c.type is not None:
             out.append(f'{ind}<{x}:element name={quoteattr(c.name.xml)} type={quoteattr(qname(f, c.type))}{extra}/>')
         else:
-            out.append(f'{ind}<{x}:element name={quoteattr(c.name.xml)}{extra}>')
-            out.append(f'{ind}  <{x}:complexType>')
+            # the prefixes a component declares for itself sit on the element or, for every other anonymous-typed element, on
+            # the complexType inside it (in scope for everything that uses them either way)
+            import zlib
+            inner = bool(extra) and getattr(c, "xmlns_inner", zlib.crc32(c.name.xml.encode()) % 2 == 0)
+            out.append(f'{ind}<{x}:element name={quoteattr(c.name.xml)}{"" if inner else extra}>')
+            out.append(f'{ind}  <{x}:complexType{extra if inner else ""}>')
             out += render_doc(f, c.doc, ind + "    ")
             out += render_content(f, c.content, c.base, ind + "    ")
             out.append(f'{ind}  </{x}:complexType>')
@@ -173,10 +188,12 @@ def schema_open(f, files, extra_decls=None):
     if f.uri is not None:
         s += f' targetNamespace={quoteattr(f.uri)}'
     s += ' elementFormDefault="qualified"'
+    declared = set()
     for k, p in sorted(f.prefixes.items(), key=lambda kv: kv[1]):
         uri = files[k].uri
-        if uri is None:
-            continue
+        if uri is None or (p, uri) in declared:
+            continue                # (two files of one namespace share their prefix)
+        declared.add((p, uri))
         if p == "":
             s += f' xmlns={quoteattr(uri)}'
             continue
